@@ -348,6 +348,12 @@ theorem tables_no_duplicate_names :
 theorem tables_names_reach_their_option :
     (Generated.ArgSpecs.all.all fun t => tableReachable t.2) = true := by decide
 
+/-- ☆ Static audit: `OptionOccurrence::spelling` is the only way a built-in could tell two spellings of
+    one invocation apart.  Outside common/syntax.rs (and tests) it is read by `ulimit` only, which —
+    solely while the `portable` option is on — rejects grouped option letters, as POSIX exempts
+    `ulimit` from Utility Syntax Guideline 5.  A new reader breaks this theorem. -/
+theorem spelling_readers_audited : Generated.ArgSpecs.spellingReaders = ["ulimit/syntax.rs"] := rfl
+
 /-! ## non-vacuity: a concrete table and concrete vectors meeting the hypotheses -/
 
 /-- `-a`, `-b` (flags), `-o`/`--output` (takes an argument), `--long`, `--lot` (flags),
